@@ -252,6 +252,20 @@ func (e *Exchange) decodeExchangeHeaders(dec *cbor.Decoder) error {
 }
 
 func (e *Exchange) Write(w io.Writer) error {
+	// Refuse what ReadExchange refuses, so that no file is written that cannot
+	// be read back: a fallback URL that is not an https URL, and (b2) a request
+	// header named ":url", which the reader treats as a deprecated key.
+	if _, err := validateFallbackURL([]byte(e.RequestURI)); err != nil {
+		return err
+	}
+	if e.Version == version.Version1b2 {
+		for name := range e.RequestHeaders {
+			if strings.ToLower(name) == string(keyURL) {
+				return fmt.Errorf("signedexchange: request header %q cannot be serialized", name)
+			}
+		}
+	}
+
 	var headerBuf bytes.Buffer
 	if err := e.DumpExchangeHeaders(&headerBuf); err != nil {
 		return err
